@@ -1551,6 +1551,96 @@ def _copy(x):
     return json.loads(json.dumps(x))
 
 
+def extract_repr_modes(repo):
+    """Repr's accepted mode names (Literal[...] annotations) and EncodeCatRows' two if/elif/else chains on self._tipe, read with `ast`"""
+    import ast
+    got = {}
+    rows = ast.parse(open(os.path.join(repo, "coba", "pipes", "rows.py"), encoding="utf-8").read())
+    filt = ast.parse(open(os.path.join(repo, "coba", "environments", "filters.py"), encoding="utf-8").read())
+
+    def cls(tree, name):
+        return next((n for n in tree.body if isinstance(n, ast.ClassDef) and n.name == name), None)
+
+    def meth(c, name):
+        return next((n for n in c.body if isinstance(n, ast.FunctionDef) and n.name == name), None) if c is not None else None
+
+    def literal_names(node):
+        """Literal["a","b",...] -> ["a","b",...]"""
+        if isinstance(node, ast.Subscript) and isinstance(node.value, ast.Name) and node.value.id == "Literal":
+            sl = node.slice
+            elts = sl.elts if isinstance(sl, ast.Tuple) else [sl]
+            if all(isinstance(e, ast.Constant) and isinstance(e.value, str) for e in elts):
+                return [e.value for e in elts]
+        return None
+
+    def tipe_const(cmp):
+        """`self._tipe == 'x'` or `'x' == self._tipe` -> 'x'"""
+        if isinstance(cmp, ast.Compare) and len(cmp.ops) == 1 and isinstance(cmp.ops[0], ast.Eq):
+            sides = [cmp.left, cmp.comparators[0]]
+            if any(isinstance(x, ast.Attribute) and x.attr == "_tipe" for x in sides):
+                c = next((x for x in sides if isinstance(x, ast.Constant) and isinstance(x.value, str)), None)
+                return c.value if c is not None else None
+        return None
+    # Repr.__init__(categorical_context: Literal[...], categorical_actions: Literal[...])
+    init = meth(cls(filt, "Repr"), "__init__")
+    if init is not None:
+        anns = {a.arg: literal_names(a.annotation) for a in init.args.args if a.annotation is not None}
+        if anns.get("categorical_context") and anns.get("categorical_actions"):
+            got["repr_context"] = anns["categorical_context"]
+            got["repr_actions"] = anns["categorical_actions"]
+    ecr = cls(rows, "EncodeCatRows")
+    init = meth(ecr, "__init__")
+    if init is not None and init.args.defaults:
+        names = literal_names(init.args.defaults[-1]) or next((literal_names(a.annotation) for a in init.args.args if a.annotation is not None and literal_names(a.annotation)), None)
+        if names:
+            got["encode_modes"] = names
+    # _encode_values: if not Categorical: rows / elif self._tipe == 'string': str / else: as_onehot
+    ev = meth(ecr, "_encode_values")
+    if ev is not None:
+        chain, node = [], next((n for n in ev.body if isinstance(n, ast.If)), None)
+        while node is not None:
+            c = tipe_const(node.test)
+            src = ast.dump(ast.Module(body=node.body, type_ignores=[]))
+            act = "str" if "id='str'" in src else "as_onehot" if "as_onehot" in src else "rows"
+            if c is not None:
+                chain.append([c, act])
+            if len(node.orelse) == 1 and isinstance(node.orelse[0], ast.If):
+                node = node.orelse[0]
+            else:
+                src = ast.dump(ast.Module(body=node.orelse, type_ignores=[]))
+                chain.append([None, "str" if "id='str'" in src else "as_onehot" if "as_onehot" in src else "rows"])
+                node = None
+        if chain and chain[-1][0] is None and all(c is not None for c, _ in chain[:-1]):
+            got["values_chain"] = chain
+    # _encode_collection: get_string = 'string' == self._tipe; flat_onehot = 'onehot' == self._tipe; catset: if get_string / elif flat_onehot / else
+    ec = meth(ecr, "_encode_collection")
+    if ec is not None:
+        flags = {}
+        for n in ec.body:
+            if isinstance(n, ast.Assign) and len(n.targets) == 1 and isinstance(n.targets[0], ast.Name):
+                c = tipe_const(n.value)
+                if c is not None:
+                    flags[n.targets[0].id] = c
+        catset = next((n for n in ec.body if isinstance(n, ast.FunctionDef) and n.name == "catset"), None)
+        chain = []
+        if catset is not None:
+            for node in ast.walk(catset):
+                if isinstance(node, ast.If) and isinstance(node.test, ast.Name) and node.test.id in flags and not chain:
+                    while node is not None:
+                        src = ast.dump(ast.Module(body=node.body, type_ignores=[]))
+                        act = "str" if "id='str'" in src else "flat" if "attr='extend'" in src or "attr='pop'" in src else "as_onehot" if "as_onehot" in src else "?"
+                        chain.append([flags.get(node.test.id) if isinstance(node.test, ast.Name) else None, act])
+                        if len(node.orelse) == 1 and isinstance(node.orelse[0], ast.If):
+                            node = node.orelse[0]
+                        else:
+                            src = ast.dump(ast.Module(body=node.orelse, type_ignores=[]))
+                            chain.append([None, "str" if "id='str'" in src else "flat" if "attr='extend'" in src or "attr='pop'" in src else "as_onehot" if "as_onehot" in src else "?"])
+                            node = None
+        if chain and chain[-1][0] is None and all(c is not None for c, _ in chain[:-1]) and all(a != "?" for _, a in chain):
+            got["coll_chain"] = chain
+    return got
+
+
 class C10(Property):
     id = "C10"
     prop_modules = ["CobaVerif.Props.C10"]
@@ -1597,19 +1687,22 @@ class C10(Property):
                          "noise_collision_counterexample), scalar categoricals (repr_scalar_actions_distinct), and at the level of the row encoders for Repr on "
                          "dense rows with top-level categoricals (repr_dense_rows_distinct, all three modes) and Flatten on equally shaped dense rows "
                          "(flatten_dense_rows_distinct, shape necessary by flatten_shape_counterexample). Still evaluated per case: the passage from the row "
-                         "encoders to the per-interaction plans of Repr/Flatten (splitBy plumbing), Repr on sparse rows and on nested categoricals, Densify's "
-                         "injectivity (its table is proved monotone and equal to keysAsked, but `distinct slots ⇒ distinct SparseDense rows` is not proved), "
+                         "encoders to the per-interaction plans of Repr/Flatten (splitBy plumbing), Repr on sparse rows and on nested categoricals, "
+                         "Densify outside densify_sparse_aligned (context only, mixed or non-sparse action sets, stored zeros, logged action equal but not identical to its member), "
                          "the `keep` cases of Repr('string') on lists and Harden (a congruence of pyEq, not proved)",
-        "densify_lookup_injective (not stated as a theorem)": "open: distinct slots ⇒ distinct SparseDense rows; the table side is proved (densify_prior_monotone, "
-                     "densify_state_is_keys, fresh_densify_object), hashing is shown to fail genuinely (densify_hashing_counterexample); the injectivity of the "
-                     "densified actions stays a per-case evaluated hypothesis compared with the real filter",
+        "densify_sparse_aligned": "phase 5, full strength for Densify(action=True) on sparse action sets, look-up (any history of the object) and hashing (any table): "
+                     "no run-time-evaluated hypothesis on the output; densifySparseHypB is a decidable predicate of the INPUT stream and of the slot table densifyTable "
+                     "(itself a function of the input's keys): rows with unique keys and no stored zero, keys of each action set on pairwise different slots < n_feats, "
+                     "logged action literally its member. Both exclusions are necessary (densify_hashing_counterexample, densify_sparse_counterexample). Not proved: that the "
+                     "look-up table IS injective while it holds at most n_feats keys (a property of CobaRandom.shuffle being a permutation; evaluated per case through densifyTable)",
         "noise_scalar_aligned": "full strength for numeric scalar actions (no run-time-evaluated hypothesis: injNoiser + noiseScalarHypB are decidable "
                      "predicates of the noiser and of the INPUT stream); the driver evaluates them at every Noise step (tag noise-scalar-hyp) and the real "
                      "filter's output is checked against the conclusion. Noise on row-valued / sparse actions and generator-driven noisers stay under chain_aligned",
         "pyEq_trans": "proved on wfNoLazy values (numbers, strings, categoricals, lists, tuples, dicts with unique keys); fails with SparseDense rows "
                      "(pyEq_not_transitive_counterexample: [1] == SparseDense == (1,)), and Python's nan != nan is outside the rational-valued model and the generator",
-        "pyEq_symm": "proved on the dense fragment (numbers, strings, categoricals, nested lists/tuples); for dicts and SparseDense rows symmetry is "
-                     "checked per case against Python's == in both directions (tag pyEq-checked) but not proved",
+        "pyEq_symm": "phase 5: proved for all wfNoLazy values incl. nested dicts (pyEq_symm_wf, pigeonhole dict_keys_pigeonhole; unique keys necessary by "
+                     "pyEq_symm_counterexample) and for well-formed SparseDense rows against list / tuple / SparseDense / str / dict (pyEq_symm_rows, wfRow: one entry per "
+                     "slot, slots < length, lazy-free stored values); SparseDense nested inside other values is not covered",
         "pyEq_refl": "proved for values without SparseDense whose dict keys are unique (wfNoLazy); SparseDense rows not covered",
         "cycle_spec": "Cycle intentionally breaks alignment: its specification is the rotation of the observable by one place; the chain theorem treats a "
                       "Cycle step that rotates as outside its hypotheses (targetHypB (.rotate _) = false)",
@@ -1713,6 +1806,46 @@ class C10(Property):
                 f.write(body)
         notes.append("C10 constants extracted from coba/environments/filters.py: %s%s"
                      % (json.dumps(got, sort_keys=True), "; NOT found (model's own value used): %s" % missing if missing else ""))
+        # --- Repr's mode names and EncodeCatRows' dispatch on them -> Generated/C10ReprModes.lean (obligation: repr_modes_match_source)
+        mdflt = {"repr_context": ["onehot", "onehot_tuple", "string"], "repr_actions": ["onehot", "onehot_tuple", "string"],
+                 "encode_modes": ["onehot", "onehot_tuple", "string"], "values_chain": [["string", "str"], [None, "as_onehot"]],
+                 "coll_chain": [["string", "str"], ["onehot", "flat"], [None, "as_onehot"]]}
+        try:
+            mgot = extract_repr_modes(repo)
+        except Exception as e:
+            mgot = {}
+            notes.append("C10 repr modes: extraction failed (%s)" % type(e).__name__)
+        mvals = dict(mdflt)
+        mvals.update(mgot)
+        self._extracted_modes = mgot
+        mmissing = sorted(set(mdflt) - set(mgot))
+
+        def q(x):
+            return '"%s"' % x.replace("\\", "\\\\").replace('"', '\\"')
+
+        def chain_fn(chain):
+            out = ""
+            for c, act in chain[:-1]:
+                out += "if tipe == %s then %s else " % (q(c), q(act))
+            return out + q(chain[-1][1])
+        mbody = ("-- GENERATED by harness/props/c10.py from coba/environments/filters.py and coba/pipes/rows.py on every run; do not edit.\n"
+                 "namespace Coba.Generated.C10\n"
+                 "def reprContextModes : List String := %s\n"
+                 "def reprActionModes : List String := %s\n"
+                 "def encodeModes : List String := %s\n"
+                 "def valuesBranch (tipe : String) : String := %s\n"
+                 "def collBranch (tipe : String) : String := %s\n"
+                 "def reprModesExtracted : Bool := %s\n"
+                 "end Coba.Generated.C10\n"
+                 % (lstr(mvals["repr_context"]), lstr(mvals["repr_actions"]), lstr(mvals["encode_modes"]), chain_fn(mvals["values_chain"]),
+                    chain_fn(mvals["coll_chain"]), "true" if not mmissing else "false"))
+        mpath = os.path.join(lean.LEAN_DIR, "CobaVerif", "Generated", "C10ReprModes.lean")
+        mold = open(mpath, encoding="utf-8").read() if os.path.exists(mpath) else None
+        if mold != mbody:
+            with open(mpath, "w", encoding="utf-8") as f:
+                f.write(mbody)
+        notes.append("C10 repr modes / dispatch extracted from filters.py + pipes/rows.py: %s%s"
+                     % (json.dumps(mgot, sort_keys=True), "; NOT found (model's own table used): %s" % mmissing if mmissing else ""))
         return notes
 
     def generate(self, rng, tier):
@@ -2053,6 +2186,8 @@ class C10(Property):
                     if key in ext and ext[key] != mine[key]:
                         fails.append(F("A", "constant `%s`: source %s, model %s" % (key, ext[key], mine[key]), "A:const:" + key))
                 tags.append("consts-checked")
+            if ans.get("modes") is not None:
+                self.check_modes(ans["modes"], fails, tags)
             # transitivity of == (pyEq_trans) on the well-formed values of this case, against the model's own matrix
             for i in range(len(objs)):
                 for j in range(len(objs)):
@@ -2068,6 +2203,107 @@ class C10(Property):
             for j in range(len(objs)):
                 if ans["denseOnly"][i] and ans["denseOnly"][j] and ans["eq"][i][j] != ans["eq"][j][i]:
                     fails.append(F("C", "pyEq_symm fails in the model on %s / %s" % (json.dumps(rows[i])[:100], json.dumps(rows[j])[:100]), "C:pyEq-symm"))
+        self.check_value_variants(rows, fails, tags, driver)
+
+    def check_modes(self, modes, fails, tags):
+        """the model's mode table (name, branch for scalar categoricals, branch inside rows) against (1) the chains extracted from the source and
+        (2) what the REAL EncodeCatRows does with a scalar categorical and with a list row holding one, per accepted mode name"""
+        from coba.pipes.rows import EncodeCatRows
+        from coba.primitives import Categorical
+        em = getattr(PROPERTY, "_extracted_modes", None) or {}
+
+        def run_chain(chain, name):
+            for c, act in chain[:-1]:
+                if c == name:
+                    return act
+            return chain[-1][1]
+        names = [m[0] for m in modes]
+        for key in ("repr_context", "repr_actions", "encode_modes"):
+            if key in em and list(em[key]) != names:
+                fails.append(F("A", "mode names: source %s = %s, model %s" % (key, em[key], names), "A:const:modes"))
+        real = getattr(self, "_real_modes", None)
+        if real is None:
+            real = {}
+            for name in names:
+                try:
+                    c = Categorical("b", ["a", "b", "c"])
+                    v = list(EncodeCatRows(name).filter([c]))[0]
+                    r = list(EncodeCatRows(name).filter([[5, Categorical("b", ["a", "b", "c"])]]))[0]
+                    vb = "str" if type(v) is str else "as_onehot" if v == (0, 1, 0) else "?"
+                    cb = "str" if list(r) == [5, "b"] and type(list(r)[1]) is str else "flat" if list(r) == [5, 0, 1, 0] else "as_onehot" if list(r) == [5, (0, 1, 0)] else "?"
+                    real[name] = [vb, cb]
+                except Exception as e:
+                    real[name] = ["raised " + type(e).__name__] * 2
+            self._real_modes = real
+        for name, vb, cb in modes:
+            if "values_chain" in em and run_chain(em["values_chain"], name) != vb:
+                fails.append(F("A", "EncodeCatRows._encode_values on mode %r: source chain gives %s, model %s" % (name, run_chain(em["values_chain"], name), vb), "A:const:modes"))
+            if "coll_chain" in em and run_chain(em["coll_chain"], name) != cb:
+                fails.append(F("A", "EncodeCatRows catset on mode %r: source chain gives %s, model %s" % (name, run_chain(em["coll_chain"], name), cb), "A:const:modes"))
+            if real.get(name) != [vb, cb]:
+                fails.append(F("A", "EncodeCatRows(%r) on a scalar categorical / on a row [5, categorical]: real code %s, model %s" % (name, real.get(name), [vb, cb]), "A:modes-dispatch"))
+        tags.append("modes-checked")
+
+    def check_value_variants(self, rows, fails, tags, driver):
+        """pyEq_symm_wf / pyEq_symm_rows / sparsedense_eq_elementwise: deterministic variants of the case's own values — dicts with the keys in
+        another order, one key dropped, one key renamed, one value changed (keys ⊆ keys with and without equal length), and SparseDense rows
+        next to the list / tuple with the same elements — compared with Python's `==` in BOTH operand orders (A) and, where the model calls
+        the rows well formed, for symmetry of the model's own answer (C)"""
+        from coba.pipes import SparseDense
+
+        def plain(v):
+            return v is not None and ("n" in v or "s" in v)
+        ext = []
+        for v in rows:
+            if v is None:
+                continue
+            if "d" in v and v["d"]:
+                kv = [list(e) for e in v["d"]]
+                ext.append({"d": kv[::-1]})
+                ext.append({"d": kv[1:]})
+                ext.append({"d": kv[:-1] + [[kv[-1][0] + "_", kv[-1][1]]]})
+                ext.append({"d": [[kv[0][0], {"n": [7, 1]}]] + kv[1:]})
+                if all(plain(x) for _, x in kv):
+                    n = len(kv) + 1
+                    ext.append({"z": [[i + 1, x] for i, (_, x) in enumerate(kv)][::-1], "len": n})
+                    ext.append({"t": [{"n": [0, 1]}] + [x for _, x in kv]})
+                    ext.append({"l": [{"n": [0, 1]}] + [x for _, x in kv]})
+            elif ("t" in v or "l" in v) and (v.get("t") or v.get("l")) and all(plain(x) for x in (v.get("t") or v.get("l"))):
+                xs = v.get("t") or v.get("l")
+                stored = [[i, x] for i, x in enumerate(xs) if not ("n" in x and x["n"][0] == 0)]
+                if stored:
+                    ext.append({"z": stored, "len": len(xs)})
+                    ext.append({"z": stored[::-1], "len": len(xs) + 1})
+                    ext.append({"t": list(xs)} if "l" in v else {"l": list(xs)})
+            if len(ext) >= 9:
+                break
+        if not ext:
+            return
+        rows2 = [v for v in rows if v is not None and ("d" in v or "t" in v or "l" in v)][:3] + ext[:9]
+        try:
+            ans = driver.ask({"op": "values", "rows": rows2})
+        except Exception as e:
+            tags.append("skipA:value-variants:" + type(e).__name__)
+            return
+
+        def mk2(v):
+            if v is not None and "z" in v:
+                return SparseDense({int(i): mk(x) for i, x in v["z"]}, int(v["len"]))
+            return mk(v)
+        objs = [mk2(v) for v in rows2]
+        tags.append("pyEq-variants-checked")
+        if any("z" in v for v in rows2):
+            tags.append("pyEq-variants:sparsedense")
+        if any("d" in v for v in rows2):
+            tags.append("pyEq-variants:dict")
+        for i, a in enumerate(objs):
+            for j, b in enumerate(objs):
+                if py_eq(a, b) != ans["eq"][i][j]:
+                    fails.append(F("A", "Python `==` on %s and %s is %s, the model's pyEq says %s" % (json.dumps(rows2[i])[:150], json.dumps(rows2[j])[:150], py_eq(a, b), ans["eq"][i][j]), "A:pyEq-variants"))
+                if ans["wfRow"][i] and ans["wfRow"][j] and ans["eq"][i][j] != ans["eq"][j][i]:
+                    fails.append(F("C", "pyEq_symm_rows fails in the model on %s / %s" % (json.dumps(rows2[i])[:100], json.dumps(rows2[j])[:100]), "C:pyEq-symm-rows"))
+                if ans["wfRow"][i] and ans["wfRow"][j] and py_eq(a, b) != py_eq(b, a):
+                    fails.append(F("A", "Python `==` is not symmetric on the well-formed rows %s / %s (pyEq_symm_rows says it is)" % (json.dumps(rows2[i])[:100], json.dumps(rows2[j])[:100]), "A:pyEq-symm-real"))
 
     def check_shapes(self, st, before, after, where, fails, tags, driver):
         """the injectivity theorems against the real code: when the model's shape hypothesis (`denseCatShapeB` for Repr,
@@ -2290,6 +2526,22 @@ class C10(Property):
                     if "actions" in n_ and not pairwise_distinct(list(n_["actions"])):
                         fails.append(F("A", where + "noise step %d, interaction %d: preconditions of noise_scalar_aligned hold but the real Noise merged two actions: %s -> %s"
                                        % (i, t, json.dumps([enc(a) for a in o_.get("actions", [])])[:200], json.dumps([enc(a) for a in n_["actions"]])[:200]), "A:noise-scalar-injective"))
+        # densify_sparse_aligned: where its explicit preconditions (about the INPUT of the step and the slot table) hold, the model's step is
+        # aligned (C) and the real Densify must have kept every action list a set (no "merged by design" excuse is possible there)
+        for dh in ans.get("densify_hyps") or []:
+            if not dh.get("hyp"):
+                tags.append("densify-sparse-hyp:no")
+                continue
+            tags.append("densify-sparse-hyp")
+            if not dh.get("aligned"):
+                fails.append(F("C", where + "model: preconditions of densify_sparse_aligned hold at step %d but the model's step is not aligned" % dh["i"], "C:densify-sparse"))
+            i = dh["i"]
+            if i < len(steps) and not impl["error"]:
+                _, before_, after_ = steps[i]
+                for t, (o_, n_) in enumerate(zip(before_, after_)):
+                    if "actions" in n_ and not pairwise_distinct(list(n_["actions"])):
+                        fails.append(F("A", where + "densify step %d, interaction %d: preconditions of densify_sparse_aligned hold (distinct slots) but the real Densify merged two actions: %s -> %s"
+                                       % (i, t, json.dumps([enc(a) for a in o_.get("actions", [])])[:200], json.dumps([enc(a) for a in n_["actions"]])[:200]), "A:densify-sparse-injective"))
         if impl["error"] or model.get("error"):
             if bool(impl["error"]) != bool(model.get("error")):
                 fails.append(F("A", where + "implementation %s, model %s" % ("raised " + impl["error"] if impl["error"] else "returned", "raised " + str(model.get("error")) if model.get("error") else "returned"), "A:error"))
